@@ -2,7 +2,7 @@
 # usage: tools/eval_dir.sh Cxx [round]   evaluates /tmp/mut/Cxx/_out/mutation_N.diff
 p=$1; r=${2:-r1}
 for n in 1 2 3; do
-  d=/tmp/mut/$p/_out
+  d=${MUT_BASE:-/tmp/mut}/$p/_out
   [ -f $d/mutation_$n.diff ] || continue
   /venv/bin/python /verif/tools/eval_seeded.py $p $d/mutation_$n.diff $d/demo_$n.py $p-$r-$n $d/notes_$n.md 2>&1 | /venv/bin/python -c "
 import sys,json
